@@ -104,9 +104,9 @@ class _ModeB(Unit):
 class C14Symbolic(_ModeB):
     name = "C14.modeb.symbolic_geometry"
     bounded = ("exact symbolic execution of the real Models.determinants, FULLY SYMBOLIC geometry (x_base, every interpolation "
-               "point and the candidate x_new are symbols): n=1 with npt in {2,3} and n=2 with npt=3, every k; n=2,npt=4 only in "
-               "the thorough tier; larger cases with symbolic geometry are not claimed")
-    plan = [(1, 2, True, True), (1, 3, True, True), (2, 3, True, False)] + ([(2, 4, True, False)] if THOROUGH else [])
+               "point and the candidate x_new are symbols): n=1 with npt in {2,3} and n=2 with npt=3, every k; n=2,npt=4 with "
+               "symbolic geometry did not finish in 240 s (exact inverse of the symbolic 7x7 system) and is not claimed")
+    plan = [(1, 2, True, True), (1, 3, True, True), (2, 3, True, True)]
     budget = 40
 
 
@@ -119,11 +119,17 @@ class C14RationalN2(_ModeB):
 
 class C14RationalN3(_ModeB):
     name = "C14.modeb.rational_geometry.n3"
-    bounded = ("exact symbolic execution of the real Models.determinants, n=3 with npt in {4,7,10} and n=4 with npt in {5,9}, "
-               "every k; seeded generic rational x_base and interpolation points (VERIF_SEED), candidate point x_new SYMBOLIC; "
-               "n=4,npt=15 in the thorough tier")
-    plan = [(3, p, False, False) for p in npts(3)] + [(4, 5, False, False), (4, 9, False, False)] \
-        + ([(4, 15, False, False)] if THOROUGH else [])
+    bounded = ("exact symbolic execution of the real Models.determinants, n=3 with npt in {4,7,10}, every k; seeded generic "
+               "rational x_base and interpolation points (VERIF_SEED, poisedness checked), candidate point x_new SYMBOLIC")
+    plan = [(3, p, False, p == 4) for p in npts(3)]
 
 
-UNITS = [C14Symbolic(), C14RationalN2(), C14RationalN3()]
+class C14RationalN4(_ModeB):
+    name = "C14.modeb.rational_geometry.n4"
+    bounded = ("exact symbolic execution of the real Models.determinants, n=4 with npt in {5,9,15}, every k; seeded generic "
+               "rational x_base and interpolation points (VERIF_SEED, poisedness checked), candidate point x_new SYMBOLIC; "
+               "n=5 (npt 6,11) in the thorough tier")
+    plan = [(4, p, False, False) for p in (5, 9, 15)] + ([(5, 6, False, False), (5, 11, False, False)] if THOROUGH else [])
+
+
+UNITS = [C14Symbolic(), C14RationalN2(), C14RationalN3(), C14RationalN4()]
